@@ -388,6 +388,39 @@ TruncAddClause(m, ev) ==
        ELSE IF ~(Inst(m, ev.q2) = Inst(m, ev.q) /\ SameZone(ev.q2, ev.q)) THEN "second-application-moves"
        ELSE "ok"
 
+\* ---------------------------------------------------------------------- C07: parsing documented forms
+\* ev: g (generation record), cfg [basic, hasAssumed, azh, azm, unknown], tz/alt/daylight/isdst (system zone),
+\*     text (code points handed to the parser), ok/cls, q (projection), dumped (str(parse(text, dump_as_parsed=True)))
+ExpZone(ev) ==
+  LET g == ev.g IN
+  IF g.tform # "none" /\ g.zform # "none" THEN <<g.zh, g.zm>>
+  ELSE IF ev.cfg.hasAssumed THEN <<ev.cfg.azh, ev.cfg.azm>>
+  ELSE IF ev.cfg.unknown THEN <<0, 0>>
+  ELSE LocalZoneFn(EffMin(ev) \div 60)
+ParseTPClause(m, ev) ==
+  LET g == ev.g  q == ev.q
+      accept == WellFormed(g) /\ (ev.cfg.basic => AllBasic(g))
+      z == ExpZone(ev)
+      gd == [g EXCEPT !.ds = IF Len(g.ds) = 0 THEN g.ds ELSE StripZeros(g.ds)]
+  IN
+  IF ev.text # TPText(g) THEN "harness-render-mismatch"
+  ELSE IF ~accept THEN (IF ev.ok THEN "accepted-a-form-that-must-be-refused" ELSE IF ~ev.ve THEN "refused-with-" \o ev.cls ELSE "ok")
+  ELSE IF ~ev.ok THEN "refused-documented-form-" \o ev.cls
+  ELSE IF ~ValidTP(m, q) THEN "result-invalid"
+  ELSE IF q.rep # DateRep(g.dform) THEN "representation"
+  ELSE IF q.y # ExpYear(g) THEN "year"
+  ELSE IF q.a # ExpA(g) \/ q.b # ExpB(g) THEN "date-fields"
+  ELSE IF q.prec # ExpPrec(g) THEN "precision-form"
+  ELSE IF q.hh # ExpH(g) THEN "hour"
+  ELSE IF q.prec # "h" /\ q.mi # ExpM(g) THEN "minute"
+  ELSE IF q.prec = "hms" /\ q.ss # ExpS(g) THEN "second"
+  ELSE IF Len(g.ds) = 0 /\ q.fu # 0 THEN "fraction-from-nowhere"
+  ELSE IF Len(g.ds) > 0 /\ ~(q.fu - Micro6(g.ds) \in 0..1) THEN "decimal-fraction"
+  ELSE IF <<q.zh, q.zm>> # z THEN "offset"
+  \* text reproduction: decimals of up to 6 digits up to trailing zeros
+  ELSE IF Len(g.ds) <= 6 /\ ev.dumped # TPText(gd) THEN "dump-as-parsed-does-not-reproduce-input"
+  ELSE "ok"
+
 \* ---------------------------------------------------------------------- the step relation
 Clause(ev) ==
   CASE ev.op = "Begin"    -> "ok"
@@ -419,6 +452,7 @@ Clause(ev) ==
     [] ev.op = "FromEpoch" -> FromEpochClause(mode, ev)
     [] ev.op = "SinceEpoch" -> SinceEpochClause(mode, ev)
     [] ev.op = "TruncAdd" -> TruncAddClause(mode, ev)
+    [] ev.op = "ParseTP"  -> ParseTPClause(mode, ev)
     [] ev.op = "Raised"   -> "raised-" \o ev.cls
     [] OTHER -> "unknown-event-kind"
 
